@@ -217,6 +217,35 @@ def check_refused(ctx, case):
               % (refused, E, len(errs), len(npts), len(serrs), list(r1[6]), list(npts)))
 
 
+def check_continue_limits(ctx, case):
+    """The continuation entry point with limits of its own: a run stopped by a positive tolerance, then continue_adaptive_refinement with tol = 0 (and tol < 0) and a
+    point limit -- the continuation obeys ITS arguments: it stops at the first of its evaluations that meets a rule stated with them (missed seed C13_a: `tol or
+    previous tolerance`)."""
+    dc = _dc()
+    cfg = case["cfg"]
+    st = cfg["strategy"]
+    lmin, lmax = lmins(cfg)
+    for tol2 in (0.0, -1.0):
+        s, eo, f = dc.build(cfg, case["comps"], case["ref"])
+        r1 = None
+        with ctx.guard("B.stop.first", S_LOOP, st + "-raises"):
+            r1 = dc.run_adaptive(s, eo, lmin, lmax, case["tol"], case["first"], 1)
+        if r1 is None:
+            return
+        n1 = len(r1[6])
+        r2 = None
+        with ctx.guard("B.stop.first", S_LOOP, st + "-continue-raises"):
+            r2 = dc.continue_adaptive(s, tol2, case["max"], 1)
+        if r2 is None:
+            return
+        errs, npts = list(r2[5])[n1:], list(r2[6])[n1:]
+        cond = lambda j: (errs[j] <= tol2 and npts[j] >= 1) or npts[j] > case["max"]  # noqa
+        early = [j for j in range(len(errs) - 1) if cond(j)]
+        ctx.check("B.stop.first", len(errs) >= 1 and not early and cond(len(errs) - 1), S_LOOP, st + "-continued-with-own-limits",
+                  "continuation with tol=%s max=%s after a run with tol=%s: errors %s points %s of the continuation; rule already true at %s, at its last evaluation: %s"
+                  % (tol2, case["max"], case["tol"], [float(e) for e in errs], npts, early, cond(len(errs) - 1) if errs else None))
+
+
 # ---------------------------------------------------------------------------------------------------------
 # generation
 # ---------------------------------------------------------------------------------------------------------
@@ -314,6 +343,8 @@ def anchor_cases():
         cfg = {"strategy": st, "a": [0.0, 0.0], "b": [1.0, 1.0], "norm": "inf", "opts": {} if st == "dimwise" else {"version": 0, "number_of_refinements_before_extend": 2},
                "grid": {"type": "GlobalTrapezoidal" if st == "dimwise" else "Trapezoidal", "boundary": True}}
         out.append({"kind": "refused", "cfg": cfg, "comps": [["corner", [1.0, 3.0]]], "ref": [0.1], "refkind": "offset", "tol": -1.0, "first": 40, "max": 90, "min": 1})
+        if st == "dimwise":
+            out.append({"kind": "continue_limits", "cfg": cfg, "comps": [["corner", [1.0, 3.0]]], "ref": [0.1], "refkind": "offset", "tol": 0.6, "first": 200, "max": 90, "min": 1})
     return out
 
 
@@ -321,7 +352,7 @@ def run(ctx):
     ctx.exhaustive = False
     for case in anchor_cases():
         ctx.case(case, nontrivial=True)
-        (check_refused if case["kind"] == "refused" else check_run)(ctx, case)
+        {"refused": check_refused, "continue_limits": check_continue_limits}.get(case["kind"], check_run)(ctx, case)
     quick = ctx.quick()
     per_cfg = 8 if quick else 12
     stats = {}
@@ -364,5 +395,7 @@ def replay(ctx, case):
             scout(case, max_ref(case))
     elif case.get("kind") == "refused":
         check_refused(ctx, case)
+    elif case.get("kind") == "continue_limits":
+        check_continue_limits(ctx, case)
     else:
         check_run(ctx, case)
